@@ -42,7 +42,7 @@ Init0 == [tid |-> "none", line |-> 0, maxsize |-> 0, pool |-> 0, door |-> 0, loa
           sent |-> <<>>, appl |-> <<>>, psent |-> <<>>, owes |-> <<>>, need |-> <<>>,
           gets |-> 0, hits |-> 0, lp |-> [k \in KeyDom |-> "none"], lrun |-> [k \in KeyDom |-> 0], lfail |-> <<>>, lcur |-> [k \in KeyDom |-> {}], lmine |-> <<>>, rv |-> <<>>, rdirty |-> <<>>, pl |-> <<>>,
           lastTick |-> -1, stalled |-> FALSE, heldAcc |-> 0, thresh |-> 28610, tick |-> 1024, nsnap |-> 0, nnotif |-> 0, nevents |-> 0, viol |-> {}, traces |-> 0, hangs |-> 0,
-          stuck |-> 0, skipped |-> 0, una |-> {}, qcap |-> 1024, batch |-> 128]
+          stuck |-> 0, skipped |-> 0, una |-> {}, qcap |-> 1024, batch |-> 128, sight |-> <<>>]
 
 V(s, prop, kind) ==
   IF Cardinality(s.viol) >= 40 THEN s
@@ -148,7 +148,12 @@ DoSetUpd(s, e) ==
 DoSetOther(s, e) ==
   LET s1 == Vif(s, e.ev = "setrej" /\ s.door = 0, "C06", "rejected_without_doorkeeper")
       s2 == Vif(s1, e.ev = "setclosed" /\ ~s.closed, "C10", "closed_path_on_open_cache")
-  IN [s2 EXCEPT !.lin = Put(s.lin, e.p, [NoLin EXCEPT !.kind = e.ev, !.found = 0, !.v = 0, !.e = 0])]
+      \* C06: the doorkeeper may refuse a key only the first time it sees it.  sight[sh] = keys this shard's
+      \* filter has been shown since it was last cleared (cnt = 1: the first sighting counted after a clearing)
+      old == IF e.ev = "setrej" /\ e.cnt > 1 THEN Get(s.sight, e.sh, {}) ELSE {}
+      s3 == Vif(s2, e.ev = "setrej" /\ e.k \in old, "C06", "doorkeeper_rejected_key_it_had_already_seen")
+      s4 == IF e.ev = "setrej" THEN [s3 EXCEPT !.sight = Put(s.sight, e.sh, old \cup {e.k})] ELSE s3
+  IN [s4 EXCEPT !.lin = Put(s.lin, e.p, [NoLin EXCEPT !.kind = e.ev, !.found = 0, !.v = 0, !.e = 0])]
 
 DoGet(s, e) ==
   LET c == Pc(s, e.p)
